@@ -197,6 +197,30 @@ BLOCKS = """blocks:
 """
 
 
+def cart_cells(n, symmetry="full"):
+    """(i, j) indices of a Cartesian core.  Through the centre assembly: (2n+1) x (2n+1) cells centred
+    on (0, 0).  Otherwise (the origin is a cell corner): (2n+2) x (2n+2) cells, (0, 0) being the first
+    cell of the upper right quadrant.  For quarter symmetry only the i >= 0, j >= 0 quadrant is modelled."""
+    through = "through center" in symmetry or symmetry == "full"
+    lo = 0 if symmetry.startswith("quarter") else (-n if through else -n - 1)
+    return [(i, j) for i in range(lo, n + 1) for j in range(lo, n + 1)]
+
+
+def cart_ring(i, j):
+    return max(abs(i), abs(j)) + 1
+
+
+def _cartesian_blocks(text):
+    """The same block designs with square ducts: Hexagon(ip, op) -> Square(widthInner, widthOuter)."""
+    return (
+        text.replace("shape: Hexagon", "shape: Square")
+        .replace("ip: grid.op", "widthInner: grid.widthOuter")
+        .replace("ip: duct.op", "widthInner: duct.widthOuter")
+        .replace("            ip: ", "            widthInner: ")
+        .replace("            op: ", "            widthOuter: ")
+    )
+
+
 def blueprint_text(spec):
     """spec: {rings, symmetry ('full'|'third periodic'), cells: [[i,j,type],...] or None,
     nfuel (fuel blocks per assembly), heights [..], plate (bool), plenum (bool), sfp (bool),
@@ -212,7 +236,8 @@ def blueprint_text(spec):
     heights = list(spec.get("heights") or [25.0] * nb)
     heights = (heights * nb)[:nb]
     xs = ["A"] * nb
-    blocks_text = BLOCKS
+    cart = spec.get("geom") == "cartesian"
+    blocks_text = _cartesian_blocks(BLOCKS) if cart else BLOCKS
     if spec.get("fuel_target"):
         # a designated (non-default) axial-expansion target on the fuel blocks
         blocks_text = blocks_text.replace("    fuel: &block_fuel\n", f"    fuel: &block_fuel\n        axial expansion target component: {spec['fuel_target']}\n")
@@ -254,11 +279,27 @@ def blueprint_text(spec):
     lines.append(f"      symmetry: {spec.get('symmetry', 'full')}")
     lines.append("      grid contents:")
     cells = spec.get("cells")
+    if cells is None and cart:
+        cells = [[i, j, "IC" if cart_ring(i, j) == 1 else "OC"] for (i, j) in cart_cells(int(spec.get("rings", 2)) - 1, "full even" if spec.get("even") and spec.get("symmetry", "full") == "full" else spec.get("symmetry", "full"))]
     if cells is None:
         cells = [[i, j, "IC" if hex_ring(i, j) == 1 else "OC"] for (i, j) in hex_cells(int(spec.get("rings", 2)))]
+    if cart:
+        k = lines.index("      grid contents:")
+        lines[k:k] = ["      lattice pitch:", "        x: 16.8", "        y: 16.8"]
     for i, j, t in cells:
         lines.append(f"        [{i}, {j}]: {t}")
-    if spec.get("pins"):
+    if spec.get("pins") and cart:
+        lines.append("    pins:")
+        lines.append("      geom: cartesian")
+        lines.append("      symmetry: full")
+        lines.append("      lattice pitch:")
+        lines.append("        x: 1.2")
+        lines.append("        y: 1.2")
+        lines.append("      grid contents:")
+        n = int(spec.get("pinrings", 2)) - 1
+        for (i, j) in cart_cells(n):
+            lines.append(f"        [{i}, {j}]: F")
+    elif spec.get("pins"):
         lines.append("    pins:")
         lines.append("      geom: hex_corners_up")
         lines.append("      symmetry: full")
